@@ -41,6 +41,10 @@ theorem aad_fc1 : ∀ x : UInt8,
       (((x >>> 7) &&& (1 : UInt8)) <<< 7) = (x &&& 0xc7) ||| 0x40 :=
   forall_uint8 _ (by decide)
 
+set_option maxRecDepth 8000 in
+theorem order_mask : ∀ x : UInt8, ((x >>> 7) &&& (1 : UInt8)) = 0 → (x &&& 0x47) ||| 0x40 = (x &&& 0xc7) ||| 0x40 :=
+  forall_uint8 _ (by decide)
+
 theorem aadFc0_eq (h : Hdr) : aadFc0 h = h.fc0 &&& 0x8f := aad_fc0 h.fc0
 theorem aadFc1_eq (h : Hdr) : aadFc1 h = (h.fc1 &&& 0xc7) ||| 0x40 := aad_fc1 h.fc1
 
@@ -58,7 +62,7 @@ def specPrio (hb : Bytes) : UInt8 := if Spec.hasQos hb then hb.getD (Spec.qosOff
 /-- **AAD and nonce.** For every well-formed data-frame header (to/from-DS, 4-address, QoS or not) the 32-byte
     AAD array and the priority byte built by `ccmp_decrypt_unicast` are the encoded AAD (length prefix, zero
     padding) and the nonce priority of IEEE 802.11 computed from the header bytes. -/
-theorem ccmpAad_spec (h : Hdr) (wf : h.WF) (hsub : h.subtype < 4 ∨ 8 ≤ h.subtype) :
+theorem ccmpAad_spec (h : Hdr) (wf : h.WF) (hsub : h.subtype < 4 ∨ 8 ≤ h.subtype) (hh : h.htc = false) :
     ccmpAad h = .ok (padZero 32 (Spec.be16 (Spec.ccmpAad h.bytes).length ++ Spec.ccmpAad h.bytes), specPrio h.bytes) ∧
     (∀ pn, Spec.ccmpNonce h.bytes pn = [specPrio h.bytes] ++ h.addr2 ++ Spec.pnBytes pn) ∧
     (22 ≤ (Spec.ccmpAad h.bytes).length ∧ (Spec.ccmpAad h.bytes).length ≤ 30) := by
@@ -73,21 +77,27 @@ theorem ccmpAad_spec (h : Hdr) (wf : h.WF) (hsub : h.subtype < 4 ∨ 8 ≤ h.sub
   clear wf hsub
   have hb := both_iff fc1
   have hqb := qosbit_iff fc0
+  have hm : qos.isSome = true → (fc1 &&& 0x47) ||| 0x40 = (fc1 &&& 0xc7) ||| 0x40 := by
+    intro hs
+    apply order_mask
+    simpa [Hdr.htc, Hdr.order, hs] using hh
+  clear hh
   by_cases hboth : fc1 &&& 3 = 3 <;> by_cases hqos : fc0 &&& 0x80 ≠ 0
   · -- 4-address, QoS
     have hq' : qos.isSome = true := by rw [hq]; simp [hqos]
+    have hm' := hm hq'
     obtain ⟨⟨q0, q1⟩, rfl⟩ := Option.isSome_iff_exists.mp hq'
     have hb' : (fc1 &&& 2 != 0 && fc1 &&& 1 != 0) = true := by rw [hb]; simp [hboth]
     have hqb' : (fc0 >>> 4 &&& 8 != 0) = true := by rw [hqb]; simp [hqos]
     constructor
     · simp [ccmpAad, aadFc0_eq, aadFc1_eq, qosTid, Hdr.fromDS, Hdr.toDS, Hdr.subtype, Hdr.fragNum,
-        Hdr.qosControl, Hdr.bytes, hb', hqb', Spec.ccmpAad, Spec.hasA4, Spec.hasQos, Spec.qosOffset, hboth, hqos,
-        specPrio, padZero, Spec.be16, boolByte, tid_eq]
+        Hdr.qosControl, Hdr.bytes, hb', hqb', Spec.ccmpAad, Spec.fc1Mask, Spec.hasA4, Spec.hasQos, Spec.qosOffset, hboth, hqos,
+        specPrio, padZero, Spec.be16, boolByte, tid_eq, hm']
     refine ⟨?_, ?_⟩
     · intro pn
       simp [Hdr.fromDS, Hdr.toDS, Hdr.bytes, hb', Spec.ccmpNonce, Spec.hasA4, Spec.hasQos, Spec.qosOffset, hboth, hqos,
         specPrio]
-    · simp [Hdr.fromDS, Hdr.toDS, Hdr.bytes, hb', Spec.ccmpAad, Spec.hasA4, Spec.hasQos, Spec.qosOffset, hboth, hqos]
+    · simp [Hdr.fromDS, Hdr.toDS, Hdr.bytes, hb', Spec.ccmpAad, Spec.fc1Mask, Spec.hasA4, Spec.hasQos, Spec.qosOffset, hboth, hqos]
   · -- 4-address, no QoS
     have hq' : qos = none := by
       cases qos with
@@ -98,27 +108,28 @@ theorem ccmpAad_spec (h : Hdr) (wf : h.WF) (hsub : h.subtype < 4 ∨ 8 ≤ h.sub
     have hqb' : (fc0 >>> 4 &&& 8 != 0) = false := by rw [hqb]; simpa using hqos
     constructor
     · simp [ccmpAad, aadFc0_eq, aadFc1_eq, qosTid, Hdr.fromDS, Hdr.toDS, Hdr.subtype, Hdr.fragNum,
-        Hdr.qosControl, Hdr.bytes, hb', hqb', Spec.ccmpAad, Spec.hasA4, Spec.hasQos, Spec.qosOffset, hboth, hqos,
+        Hdr.qosControl, Hdr.bytes, hb', hqb', Spec.ccmpAad, Spec.fc1Mask, Spec.hasA4, Spec.hasQos, Spec.qosOffset, hboth, hqos,
         specPrio, padZero, Spec.be16, boolByte, tid_eq]
     refine ⟨?_, ?_⟩
     · intro pn
       simp [Hdr.fromDS, Hdr.toDS, Hdr.bytes, hb', Spec.ccmpNonce, Spec.hasA4, Spec.hasQos, Spec.qosOffset, hboth, hqos,
         specPrio]
-    · simp [Hdr.fromDS, Hdr.toDS, Hdr.bytes, hb', Spec.ccmpAad, Spec.hasA4, Spec.hasQos, Spec.qosOffset, hboth, hqos]
+    · simp [Hdr.fromDS, Hdr.toDS, Hdr.bytes, hb', Spec.ccmpAad, Spec.fc1Mask, Spec.hasA4, Spec.hasQos, Spec.qosOffset, hboth, hqos]
   · -- 3-address, QoS
     have hq' : qos.isSome = true := by rw [hq]; simp [hqos]
+    have hm' := hm hq'
     obtain ⟨⟨q0, q1⟩, rfl⟩ := Option.isSome_iff_exists.mp hq'
     have hb' : (fc1 &&& 2 != 0 && fc1 &&& 1 != 0) = false := by rw [hb]; simp [hboth]
     have hqb' : (fc0 >>> 4 &&& 8 != 0) = true := by rw [hqb]; simp [hqos]
     constructor
     · simp [ccmpAad, aadFc0_eq, aadFc1_eq, qosTid, Hdr.fromDS, Hdr.toDS, Hdr.subtype, Hdr.fragNum,
-        Hdr.qosControl, Hdr.bytes, hb', hqb', Spec.ccmpAad, Spec.hasA4, Spec.hasQos, Spec.qosOffset, hboth, hqos,
-        specPrio, padZero, Spec.be16, boolByte, tid_eq]
+        Hdr.qosControl, Hdr.bytes, hb', hqb', Spec.ccmpAad, Spec.fc1Mask, Spec.hasA4, Spec.hasQos, Spec.qosOffset, hboth, hqos,
+        specPrio, padZero, Spec.be16, boolByte, tid_eq, hm']
     refine ⟨?_, ?_⟩
     · intro pn
       simp [Hdr.fromDS, Hdr.toDS, Hdr.bytes, hb', Spec.ccmpNonce, Spec.hasA4, Spec.hasQos, Spec.qosOffset, hboth, hqos,
         specPrio]
-    · simp [Hdr.fromDS, Hdr.toDS, Hdr.bytes, hb', Spec.ccmpAad, Spec.hasA4, Spec.hasQos, Spec.qosOffset, hboth, hqos]
+    · simp [Hdr.fromDS, Hdr.toDS, Hdr.bytes, hb', Spec.ccmpAad, Spec.fc1Mask, Spec.hasA4, Spec.hasQos, Spec.qosOffset, hboth, hqos]
   · -- 3-address, no QoS
     have hq' : qos = none := by
       cases qos with
@@ -129,13 +140,13 @@ theorem ccmpAad_spec (h : Hdr) (wf : h.WF) (hsub : h.subtype < 4 ∨ 8 ≤ h.sub
     have hqb' : (fc0 >>> 4 &&& 8 != 0) = false := by rw [hqb]; simpa using hqos
     constructor
     · simp [ccmpAad, aadFc0_eq, aadFc1_eq, qosTid, Hdr.fromDS, Hdr.toDS, Hdr.subtype, Hdr.fragNum,
-        Hdr.qosControl, Hdr.bytes, hb', hqb', Spec.ccmpAad, Spec.hasA4, Spec.hasQos, Spec.qosOffset, hboth, hqos,
+        Hdr.qosControl, Hdr.bytes, hb', hqb', Spec.ccmpAad, Spec.fc1Mask, Spec.hasA4, Spec.hasQos, Spec.qosOffset, hboth, hqos,
         specPrio, padZero, Spec.be16, boolByte, tid_eq]
     refine ⟨?_, ?_⟩
     · intro pn
       simp [Hdr.fromDS, Hdr.toDS, Hdr.bytes, hb', Spec.ccmpNonce, Spec.hasA4, Spec.hasQos, Spec.qosOffset, hboth, hqos,
         specPrio]
-    · simp [Hdr.fromDS, Hdr.toDS, Hdr.bytes, hb', Spec.ccmpAad, Spec.hasA4, Spec.hasQos, Spec.qosOffset, hboth, hqos]
+    · simp [Hdr.fromDS, Hdr.toDS, Hdr.bytes, hb', Spec.ccmpAad, Spec.fc1Mask, Spec.hasA4, Spec.hasQos, Spec.qosOffset, hboth, hqos]
 
 /-- **The parser inverts `Hdr.bytes`.** A protected data frame made of the bytes of a well-formed header and a
     non-empty body parses to exactly that header with the body as a `RawPDU`. -/
